@@ -60,7 +60,9 @@ def main():
     r1 = [n for n in names if n.endswith(("-1", "-2"))]
     r2 = [n for n in names if n.endswith(("-3", "-4"))]
     r3 = [n for n in names if n.endswith(("-5", "-6"))]
+    r4 = [n for n in names if n.endswith(("-7", "-8"))]
     t = open(os.path.join(VERIF, "tools", "design_section8.md")).read()
+    t = t.replace("SEEDED_TABLE_4", table(R, r4, first))
     t = t.replace("SEEDED_TABLE_3", table(R, r3, first)).replace("SEEDED_TABLE_2", table(R, r2)).replace("SEEDED_TABLE", table(R, r1))
     cc = os.path.join(VERIF, "tools", "coqchk_result.txt")
     t = t.replace("COQCHK_RESULT", open(cc).read().strip() if os.path.exists(cc) else "(not run)")
@@ -69,7 +71,7 @@ def main():
     b = d.index("## Appendix A.")
     open(os.path.join(VERIF, "DESIGN.md"), "w").write(d[:a] + t.rstrip("\n") + "\n\n" + d[b:])
     und = [n for n in names if status(R.get(n, {}).get("check_quick", {}).get(n.split("-")[0])) == "not detected"]
-    print("rounds:", len(r1), len(r2), len(r3), "not detected:", und)
+    print("rounds:", len(r1), len(r2), len(r3), len(r4), "not detected:", und)
 
 
 if __name__ == "__main__":
